@@ -105,3 +105,110 @@ func (t *Timer) Reset(d Duration) bool {
 	}
 	return t.rt.Reset(d)
 }
+
+// Ticker is a simulated time.Ticker.
+type Ticker struct {
+	C  <-chan Time
+	st *simrt.TimerState
+	rt *time.Ticker
+}
+
+//go:noinline
+func NewTicker(d Duration) *Ticker {
+	if d <= 0 {
+		panic("non-positive interval for NewTicker")
+	}
+	if st := simrt.NewTimer(d, nil); st != nil {
+		st.Period = d
+		return &Ticker{C: st.C, st: st}
+	}
+	rt := time.NewTicker(d)
+	return &Ticker{C: rt.C, rt: rt}
+}
+
+//go:noinline
+func Tick(d Duration) <-chan Time {
+	if d <= 0 {
+		return nil
+	}
+	return NewTicker(d).C
+}
+
+//go:noinline
+func (t *Ticker) Stop() {
+	if t.st != nil {
+		t.st.Period = 0
+		t.st.Stop()
+		return
+	}
+	t.rt.Stop()
+}
+
+//go:noinline
+func (t *Ticker) Reset(d Duration) {
+	if t.st != nil {
+		t.st.Period = d
+		t.st.Reset(d)
+		return
+	}
+	t.rt.Reset(d)
+}
+
+// ---- pass-through for the parts of package time that do not read the clock ----
+
+type ParseError = time.ParseError
+
+const (
+	Layout      = time.Layout
+	ANSIC       = time.ANSIC
+	UnixDate    = time.UnixDate
+	RFC822      = time.RFC822
+	RFC1123     = time.RFC1123
+	RFC3339     = time.RFC3339
+	RFC3339Nano = time.RFC3339Nano
+	Kitchen     = time.Kitchen
+	Stamp       = time.Stamp
+	StampMilli  = time.StampMilli
+	StampMicro  = time.StampMicro
+	StampNano   = time.StampNano
+	DateTime    = time.DateTime
+	DateOnly    = time.DateOnly
+	TimeOnly    = time.TimeOnly
+)
+
+const (
+	January   = time.January
+	February  = time.February
+	March     = time.March
+	April     = time.April
+	May       = time.May
+	June      = time.June
+	July      = time.July
+	August    = time.August
+	September = time.September
+	October   = time.October
+	November  = time.November
+	December  = time.December
+)
+
+const (
+	Sunday    = time.Sunday
+	Monday    = time.Monday
+	Tuesday   = time.Tuesday
+	Wednesday = time.Wednesday
+	Thursday  = time.Thursday
+	Friday    = time.Friday
+	Saturday  = time.Saturday
+)
+
+var Local = time.Local
+
+func ParseDuration(s string) (Duration, error)    { return time.ParseDuration(s) }
+func Parse(layout, value string) (Time, error)    { return time.Parse(layout, value) }
+func UnixMilli(msec int64) Time                   { return time.UnixMilli(msec) }
+func UnixMicro(usec int64) Time                   { return time.UnixMicro(usec) }
+func FixedZone(name string, offset int) *Location { return time.FixedZone(name, offset) }
+func LoadLocation(name string) (*Location, error) { return time.LoadLocation(name) }
+func ParseInLocation(l, v string, loc *Location) (Time, error) {
+	return time.ParseInLocation(l, v, loc)
+}
